@@ -2,10 +2,10 @@
 
 CFG = {
     'sub': 'c09',
-    'gens': [('gen_tx_order.py', 'TxOrder.v')],
+    'gens': [('gen_tx_order.py', 'TxOrder.v'), ('gen_itemcache_locks.py', 'ItemCacheLocks.v')],
     # everything Run_C09.v (-> Model_C02 -> Model_C19, Model_C01) and Props_C09.v (-> Proofs_C09b -> Proofs_C09 -> Model_C09, Run_C09) depend on
     'coq_files': ['Bytes.v', 'U64.v', 'KeyLayout.v', 'Pack.v', 'Value.v', 'Obs.v', 'Model_C19.v', 'Model_C01.v', 'Model_C02.v',
-                  'Run_C09.v', 'Model_C09.v', 'Proofs_C09.v', 'TxOrder.v', 'Proofs_C09b.v', 'Props_C09.v'],
+                  'Run_C09.v', 'Model_C09.v', 'Proofs_C09.v', 'TxOrder.v', 'ItemCacheLocks.v', 'Proofs_C09b.v', 'Props_C09.v'],
     'props': 'Props_C09.v', 'run': 'Run_C09.v',
     'harness_timeout': 900,
     'widen_runs': 2,
@@ -151,3 +151,4 @@ CFG.setdefault('trusted_extra', []).append(
 
 CFG['rule'] = CFG['rule'] + ' ' + 'The stress runs have one more client that keeps calling Shard.Info. Forced runs, phase C (nothing concurrent): on a sparse graph of 500 points, on caches created by an earlier finished read transaction, six searches from other regions and six exact-regime searches (pre-filter of 12 live points, limit 12: exactly those must come back). Within one run a failure code that is not a known symptom is reported in preference to one that is.'
 CFG['rule'] = CFG['rule'] + ' ' + 'Forced schedules: one in four runs with a cache manager whose budget is one byte (whatever is registered is evicted when a request ends, also a cache its writer still holds; the next search registers a cache built from the data before the commit, which the commit must discard).'
+CFG['rule'] = CFG['rule'] + ' ' + 'Obligation ItemCacheLocks (gen_itemcache_locks.py): every exported ItemCache method that works on the item map holds the cache mutex for its whole body (theorem c09_itemcache_methods_locked); every other stress run uses a finite cache budget (1 GiB) so that the accounting of the manager runs next to writers and searchers.'
